@@ -4,13 +4,13 @@ import (
 	"github.com/tonistiigi/fsutil/zz_verif/v"
 )
 
-func specInside(t, s string) bool { // t is strictly inside s
+func vh_specInside(t, s string) bool { // t is strictly inside s
 	return len(t) > len(s)+1 && t[:len(s)] == s && t[len(s)] == '/'
 }
 
 // plausiblePath: what FollowLinks can hand to dedupePaths: "." or a relative path without empty
 // and without "." components (results of filepath.Join(".", ...)).
-func plausiblePath(s string) bool {
+func vh_plausiblePath(s string) bool {
 	if s == "." {
 		return true
 	}
@@ -39,7 +39,7 @@ func VH_C18_dedupe() {
 	hasDot := false
 	for i := range in {
 		in[i] = v.String("s", v.Choose("len", n)+1)
-		v.Assume(plausiblePath(in[i]))
+		v.Assume(vh_plausiblePath(in[i]))
 		if i > 0 {
 			v.Assume(in[i-1] < in[i])
 		}
@@ -67,14 +67,14 @@ func VH_C18_dedupe() {
 	for a := range out {
 		for b := range out {
 			if a != b {
-				v.Assert(!specInside(out[a], out[b]), "no output element lies inside another output element")
+				v.Assert(!vh_specInside(out[a], out[b]), "no output element lies inside another output element")
 			}
 		}
 	}
 	for _, s := range in {
 		covered := false
 		for _, o := range out {
-			if s == o || specInside(s, o) {
+			if s == o || vh_specInside(s, o) {
 				covered = true
 			}
 		}
